@@ -72,11 +72,16 @@ func (a *actor) runActorCommandWithConsumer(
 
 	log.Infof(ctx, "running: %s (workdir %s)", strings.Join(cmd.Args, " "), cmd.Dir)
 
-	outstream, err := cmd.StderrPipe()
+	// We use our own pipe and not cmd.StderrPipe(): Wait() closes the
+	// latter as soon as the process is gone, and the lines the command
+	// printed just before it exited, not yet read, would be lost.
+	outstream, outw, err := os.Pipe()
 	if err != nil {
 		return nil, errors.WithContextTags(errors.Wrap(err, "setting up"), ctx), nil
 	}
-	cmd.Stdout = cmd.Stderr
+	defer outstream.Close()
+	cmd.Stderr = outw
+	cmd.Stdout = outw
 
 	// We'll use a buffered reader to extract lines of data from it.
 	rd := bufio.NewReader(outstream)
@@ -84,7 +89,10 @@ func (a *actor) runActorCommandWithConsumer(
 	readerDone := make(chan struct{})
 	runReaderAsync(ctx, stopper, rd, lines, readerDone)
 
-	if err := cmd.Start(); err != nil {
+	err = cmd.Start()
+	// The command has its own copy of the write side now.
+	outw.Close()
+	if err != nil {
 		return nil, errors.WithContextTags(errors.Wrap(err, "exec"), ctx), nil
 	}
 
@@ -228,6 +236,14 @@ func (a *actor) runActorCommandWithConsumer(
 		log.Infof(ctx, "terminated: %s", ps)
 	}
 
+	// The process is gone. Let the reader finish what is left in the
+	// pipe, but do not wait for ever for descendants of the command
+	// that may still hold it open.
+	select {
+	case <-readerDone:
+	case <-time.After(time.Second):
+	}
+	outstream.Close()
 	<-readerDone
 	if interrupt {
 		// The leader is gone, and with it the drain loop above (its
